@@ -1,11 +1,13 @@
 /-
   Props/C01.lean — C01: transfers conserve tokens, on one shard and across shards.
-  PARTIAL: per-call exactness of ESDTTransfer on every execution side and of the destination side of ESDTNFTTransfer
-  is proved; the sender side of NFT / multi transfers, and the invariant over histories with deliveries and refunds
-  (which speaks about the node's message handling, DESIGN App. C), are decided by the conservation oracle (per storage key:
+  Per-call exactness of ESDTTransfer on every execution side and of the destination side of ESDTNFTTransfer, and the
+  supply invariant over ALL histories of fungible transfers, deliveries and refunds (world model: Proofs/Network.lean,
+  the node's message handling of DESIGN App. C made explicit) are proved; PARTIAL: the history-level statement for NFT /
+  multi transfers is decided by the conservation oracle (per storage key:
   Σ balances over all shards + Σ in-flight quantities is invariant under every transfer, delivery and refund) and by
   correspondence on the full diff + emitted payloads.
 -/
+import Proofs.Network
 import Proofs.Ledger
 import Proofs.Hex
 namespace C01
@@ -86,5 +88,35 @@ theorem nftTransfer_dest_exact (env : Env) (c : Call) (ctx ctx' : Ctx) (out : VM
   obtain ⟨tok, payload, t, cur, tv, cv, h0, h3, hdec, _, _, hcur, _, _, hh, htv, hcv, hw⟩ :=
     (nftTransfer_dest_effect env c ctx hne).elim h
   exact ⟨tok, payload, t, cur, tv, cv, h0, h3, hdec, hcur, hh, htv, hcv, hw⟩
+
+/-- FULL (history level, fungible transfers): in a world of any number of shards, under ANY sequence of ESDTTransfer
+    transactions (executed on the sender's shard; failed calls rolled back), deliveries of the emitted cross-shard messages
+    in any order (a failed delivery turns the message into a refund message) and refunds (flagged return-after-error,
+    executed on the origin shard), the per-key supply
+        Σ_shards Σ_accounts decoded balance under the key  +  Σ_in-flight messages for the key, amount
+    is invariant — for every storage-level token key, well-formed or not.  Hypotheses: account lists without duplicate
+    addresses, messages between different shards (the invariant `WorldInv`, preserved), transactions not sent by the system
+    account nor to oneself, stored values shorter than 2^63 bytes along the run. -/
+theorem conservation_history (e : Env) (steps : List NStep) (w : NWorld) (hI : WorldInv e w)
+    (hok : ∀ s ∈ steps, NStepOK s) (hS : ShortAlongW e steps w) (k : Bytes) :
+    supply (nrun e steps w) k = supply w k :=
+  (nrun_supply e steps w hI hok hS k).1
+
+/-- non-vacuity: two shards, 5 tokens at an account of shard 0; transfer 3 to an account of shard 1, deliver: the supply
+    stays 5, and in between 3 of them are in flight -/
+def nvEnv : Env := { self := 0, nshards := 2, payable := fun _ => .yes, dns := [], nameChange := false, gas := {}, active := true }
+def nvAlice : Bytes := List.replicate 32 2     -- last byte 2 ⇒ shard 0
+def nvBob : Bytes := List.replicate 32 3       -- last byte 3 ⇒ shard 1
+def nvTok : Bytes := [84, 79, 75]
+def nvW0 : NWorld :=
+  { shards := [Accts.write [] nvAlice (esdtKeyPrefix ++ nvTok) (encToken { type := 0, value := some 5 }), []], inflight := [] }
+def nvXfer : Call := { fn := fnESDTTransfer, caller := nvAlice, rcv := nvBob, args := [nvTok, [3]] }
+example : supply nvW0 (esdtKeyPrefix ++ nvTok) = 5 ∧
+    flightAt (nrun nvEnv [.user nvXfer] nvW0).inflight (esdtKeyPrefix ++ nvTok) = 3 ∧
+    supply (nrun nvEnv [.user nvXfer, .deliver 0] nvW0) (esdtKeyPrefix ++ nvTok) = 5 ∧
+    (nrun nvEnv [.user nvXfer, .deliver 0] nvW0).inflight = [] := by decide +kernel
+
+-- PARTIAL: the same history-level statement for ESDTNFTTransfer and MultiESDTNFTTransfer (their per-call effects are
+-- proved above / in C08; the world model of Proofs/Network.lean runs the fungible function only) — conservation oracle.
 
 end C01
